@@ -33,7 +33,7 @@ SPEC = {'id': 'C12',
              'today; true: kept). Not modelled: protocolName/protocolType pass-through, OffsetFetch/DescribeGroups/ListGroups/DeleteGroups, store errors, the '
              "ticker's real-time jitter.",
  'search_n': 1500,
- 'theorems': ['C12_assignment_partition', 'C12_one_map_per_generation', 'C12_one_map_per_generation_multi', 'C12_round_robin_unique', 'C12_assignment_partition_under_store_faults', 'C12_nonvacuous'],
+ 'theorems': ['C12_assignment_partition', 'C12_one_map_per_generation', 'C12_one_map_per_generation_multi', 'C12_round_robin_unique', 'C12_assignment_partition_under_store_faults', 'C12_assignment_after_failover_under_store_faults', 'C12_assignment_after_failover_needs_synced', 'C12_nonvacuous'],
  'level_text': 'Machine-checked Coq theorems over ALL histories (joins incl. changed subscriptions, syncs, heartbeats, leaves, commits, cleanup ticks at '
                'arbitrary times, failovers; unbounded members/topics/partitions) of the executable coordinator model: every successful sync returns the '
                "group's entry of assignPartitions(current members, current subscriptions), which is proved to be a partition (only subscribed topics and "
